@@ -1,5 +1,5 @@
 """Which rules and witnesses decide which property."""
-from . import shared_state, surface, entry, tables, dirflow, precision, gates
+from . import shared_state, surface, entry, tables, dirflow, precision, gates, kbound, primw
 
 RULES = {
     "R-NOCELL": shared_state.r_nocell,
@@ -25,6 +25,11 @@ RULES = {
     "R-RINGOPS": precision.r_ringops,
     "R-GATES": gates.r_featgate,
     "R-PLANNERGATE": gates.r_plannergate,
+    "R-KBOUND": kbound.r_kbound,
+    "R-PRIMW": primw.r_primw,
+    "R-RAWFIXED": primw.r_rawfixed,
+    "R-RELSITES": primw.r_relsites,
+    "R-WHOCALLS": primw.r_whocalls,
 }
 
 PROPS = {
@@ -185,14 +190,22 @@ PROPS = {
     },
     "C03": {
         "level": "other",
-        "rules": ["R-ENTRY", "R-HELPER", "R-GATES"],
+        "rules": ["R-ENTRY", "R-HELPER", "R-WHOCALLS", "R-KBOUND", "R-RAWFIXED", "R-PRIMW", "R-GATES", "R-RELSITES"],
         "witnesses": [],
-        "explanation": "Layered argument. (1) R-ENTRY/R-HELPER: every public way into per-chunk code passes a validator that hands out chunks of exactly "
-                       "len() elements and scratch trimmed to exactly the advertised length (validators and helpers are safe code). (3) R-GATES: no slice is "
-                       "re-typed to another element type without an established type identity and no instruction outside the detected feature set can "
-                       "execute (both are undefined behaviour otherwise). Layers (2) fixed-size kernel bounds and (4) relational inventory: see rules list.",
-        "decides": "validated entry into every kernel; type-identity gate before every slice re-typing; CPU-feature gate before every #[target_feature] call",
-        "does_not_decide": "accesses whose bound is a relation between run-time lengths (transposes, radix-N cross butterflies, AVX mixed-radix/Rader/Bluestein rows): inventoried as undecided",
-        "assumptions": ["x86_64 non-test code"],
+        "explanation": "Layered argument. (1) R-ENTRY/R-HELPER/R-WHOCALLS: the exported surface offers no data-buffer function other than the "
+                       "369 process_* methods and the provided process(); each passes a validator that hands out chunks of exactly len() elements and "
+                       "scratch trimmed to exactly the advertised length (validators and helpers are safe code). (2) R-KBOUND: in every fixed-size "
+                       "kernel (all methods/closures of the 99 types whose len() is a constant: scalar, SSE, AVX butterflies) every load/store "
+                       "satisfies hi(index)+width <= bound(receiver) by interval analysis (literals, for-range payloads, arithmetic, closure parameters "
+                       "joined over their call sites, captured variables, helper parameters joined over callers), with receiver bounds propagated from "
+                       "the validators (N, 2N for the pair path, the constant scratch requirement), through DoubleBuf, array references and call "
+                       "sites; R-RAWFIXED covers the raw escape-hatch intrinsics in those kernels; R-PRIMW shows each SIMD primitive moves exactly "
+                       "the bytes its name promises and each array wrapper uses its own receiver and index. (3) R-GATES: no slice is re-typed without an "
+                       "established type identity and no instruction outside the detected feature set can execute. (4) R-RELSITES: every remaining "
+                       "unchecked access is inventoried as NOT DECIDED (its bound is a relation between run-time lengths); only the presence of the "
+                       "explicit panicking guards of the public-path transposes is checked for them.",
+        "decides": "in-bounds-ness of every access in all fixed-size kernels for all inputs/call shapes; validated entry; type and CPU-feature gates",
+        "does_not_decide": "accesses whose bound is a relation between run-time lengths (transposes, radix-N cross butterflies, AVX mixed-radix/Rader/Bluestein rows): inventoried in evidence as undecided, never silently passed",
+        "assumptions": ["x86_64 non-test code", "byte footprints of the core::arch intrinsics as tabulated in rules/primw.py"],
     },
 }
